@@ -5,6 +5,8 @@ package main
 
 import (
 	"fmt"
+	"sort"
+	"sync"
 	"go/token"
 	"go/types"
 	"math/big"
@@ -163,6 +165,7 @@ func init() {
 	I[vzPkg+".IteTime"] = func(p *Path, a []Value, _ *ssa.CallCommon) Value {
 		return mergeValuesOrFork(p, termOf(a[0]), a[1], a[2])
 	}
+	I[vzPkg+".MapOrderReps"] = func(p *Path, a []Value, _ *ssa.CallCommon) Value { return mkInt(1) }
 	I[vzPkg+".Thorough"] = func(p *Path, a []Value, _ *ssa.CallCommon) Value { return mkBool(p.eng.thorough) }
 	I[vzPkg+".Symbolic"] = func(p *Path, a []Value, _ *ssa.CallCommon) Value { return tTrue }
 	I[vzPkg+".Unreachable"] = func(p *Path, a []Value, _ *ssa.CallCommon) Value {
@@ -176,6 +179,32 @@ func init() {
 			return mkStr(v)
 		}
 		panic(unsupported("HostCall table miss: " + name + "(" + arg + ")"))
+	}
+
+	I[vzPkg+".HostCallInt"] = func(p *Path, a []Value, _ *ssa.CallCommon) Value {
+		// HostCallInt(name, prefix string, i int64) string: table lookup with a symbolic
+		// integer argument, encoded as an ite chain over the table entries "prefix<k>".
+		name := cstr(p, a[0], "HostCallInt name")
+		prefix := cstr(p, a[1], "HostCallInt prefix")
+		i := termOf(a[2])
+		if c, ok := i.constInt64(); ok {
+			if v, ok := p.eng.hostTable[name+"\x00"+prefix+strconv.FormatInt(c, 10)]; ok {
+				return mkStr(v)
+			}
+			panic(unsupported("HostCallInt table miss"))
+		}
+		ents := p.eng.hostIntEntries(name, prefix)
+		if len(ents) == 0 {
+			panic(unsupported("HostCallInt: empty table for " + name + " " + prefix))
+		}
+		// the harness must keep i within the table
+		p.flushAsserts()
+		p.addPC(mkAnd(mkLe(mkInt(ents[0].k), i), mkLe(i, mkInt(ents[len(ents)-1].k))))
+		var r *Term = mkStr(ents[len(ents)-1].v)
+		for j := len(ents) - 2; j >= 0; j-- {
+			r = mkIte(mkEq(i, mkInt(ents[j].k)), mkStr(ents[j].v), r)
+		}
+		return r
 	}
 
 	// ---------- time ----------
@@ -1437,4 +1466,30 @@ func (p *Path) assumeFeasible(c *Term) {
 	if p.s.CheckWith(c) == Unsat {
 		panic(pathEnd{"assume-false"})
 	}
+}
+
+type hostIntEntry struct {
+	k int64
+	v string
+}
+
+var hostIntCache sync.Map
+
+// hostIntEntries returns the table entries name/prefix<k> sorted by k; k must be contiguous.
+func (e *Engine) hostIntEntries(name, prefix string) []hostIntEntry {
+	key := name + "\x00" + prefix
+	if v, ok := hostIntCache.Load(key); ok {
+		return v.([]hostIntEntry)
+	}
+	var out []hostIntEntry
+	for k, v := range e.hostTable {
+		if strings.HasPrefix(k, key) {
+			if n, err := strconv.ParseInt(k[len(key):], 10, 64); err == nil {
+				out = append(out, hostIntEntry{n, v})
+			}
+		}
+	}
+	sort.Slice(out, func(i, j int) bool { return out[i].k < out[j].k })
+	hostIntCache.Store(key, out)
+	return out
 }
